@@ -173,6 +173,17 @@ func genProgram(r *hk.Rand) *program {
 	if r.Chance(30) {
 		sh.RForm = genKvs(r, formKeys, tokVals, 2, false)
 	}
+	if r.Chance(25) {
+		sh.Path = hk.Pick(r, []string{"/p/{id}", "/{v}/items/{id}", "/p/{id}/{id}", "/p/{name}/a", "/p/a"})
+		for _, k := range []string{"id", "v", "name"} {
+			if r.Chance(55) {
+				sh.RPParams = append(sh.RPParams, [2]string{k, hk.Pick(r, tokVals)})
+			}
+			if r.Chance(45) {
+				sh.CPParams = append(sh.CPParams, [2]string{k, hk.Pick(r, []string{"c1", "c2", "cx"})})
+			}
+		}
+	}
 	sh.CQuery = genKvs(r, queryKeys, tokVals, 2, false)
 	sh.RQuery = genKvs(r, queryKeys, tokVals, 2, false)
 	switch k := r.Intn(100); {
@@ -219,6 +230,11 @@ func genProgram(r *hk.Rand) *program {
 	}
 	if sh.BodyKind != "none" && sh.BodyKind != "multipart" {
 		sh.Body = hk.Pick(r, bodies)
+	}
+	if sh.BodyKind != "multipart" && r.Chance(15) {
+		for i, n := 0, r.Range(1, 3); i < n; i++ {
+			sh.Ordered = append(sh.Ordered, [2]string{hk.Pick(r, formKeys), hk.Pick(r, tokVals)})
+		}
 	}
 	if sh.Method == "GET" && r.Chance(30) {
 		sh.DenyGetPay = true
@@ -272,6 +288,7 @@ func genUploadProgram(r *hk.Rand) *program {
 	sh := &p.Shape
 	sh.Method = hk.Pick(r, []string{"POST", "PUT", "PATCH"})
 	sh.BodyKind, sh.Body, sh.MPFiles = "multipart", "", nil
+	sh.Ordered = nil // ordered pairs in multipart bodies are not in the upload model
 	kinds := []string{"bytes", "path", "seekcloser", "reader", "customseek", "customplain", "buffer", "osfile"}
 	sh.Chunked = r.Chance(40)
 	for i, nf := 0, r.Range(1, 3); i < nf; i++ {
@@ -429,7 +446,7 @@ func coqCase(p *program, o *observation) (string, bool) {
 	if sh.BodyKind == "multipart" {
 		return coqUpload(p, o)
 	}
-	client := fmt.Sprintf("(mkClient %s %s %s %s %s)", coqAmap(sh.CHeaders), coqCookies(sh.CCookies), coqAmap(sh.CForm), coqAmap(sh.CQuery), hk.CoqBool(!sh.DenyGetPay))
+	client := fmt.Sprintf("(mkClient %s %s %s %s %s %s)", coqAmap(sh.CHeaders), coqCookies(sh.CCookies), coqAmap(sh.CForm), coqAmap(sh.CQuery), hk.CoqBool(!sh.DenyGetPay), coqCookies(sh.CPParams))
 	body, gb, reader, unrep := "None", "GBNil", "[]", "false"
 	switch sh.BodyKind {
 	case "bytes", "string":
@@ -439,8 +456,8 @@ func coqCase(p *program, o *observation) (string, bool) {
 	case "reader", "readcloser":
 		gb, reader, unrep = "GBReader", hk.CoqStr(sh.Body), "true"
 	}
-	rs := fmt.Sprintf("(mkR %s %s %s %s %s %s %s %s %s %s 0%%Z)", hk.CoqStr(sh.Method), hk.CoqStr(sh.RawQuery), coqAmap(sh.RHeaders), coqCookies(sh.RCookies),
-		coqAmap(sh.RForm), coqAmap(sh.RQuery), body, gb, reader, unrep)
+	rs := fmt.Sprintf("(mkR %s %s %s %s %s %s %s %s %s %s 0%%Z %s %s %s)", hk.CoqStr(sh.Method), hk.CoqStr(sh.RawQuery), coqAmap(sh.RHeaders), coqCookies(sh.RCookies),
+		coqAmap(sh.RForm), coqAmap(sh.RQuery), body, gb, reader, unrep, hk.CoqStr(sh.path()), coqCookies(sh.RPParams), coqCookies(sh.Ordered))
 	var script []string
 	for k, oc := range p.Script {
 		var out string
@@ -491,7 +508,7 @@ func coqCase(p *program, o *observation) (string, bool) {
 				hs = append(hs, kvs{k, vs})
 			}
 		}
-		wires = append(wires, fmt.Sprintf("mkW %s %s %s %s %s", hk.CoqStr(w.Method), hk.CoqStr(w.Query), coqAmap(hs), coqCookies(w.Cookies), hk.CoqOpt(w.HasBody, hk.CoqStr(w.Body))))
+		wires = append(wires, fmt.Sprintf("mkW %s %s %s %s %s %s", hk.CoqStr(w.Method), hk.CoqStr(w.Path), hk.CoqStr(w.Query), coqAmap(hs), coqCookies(w.Cookies), hk.CoqOpt(w.HasBody, hk.CoqStr(w.Body))))
 	}
 	detect := ""
 	if sh.Body != "" {
